@@ -564,6 +564,24 @@ def parseDeclarator (text : List Char) : Except PErr Declarator :=
     if dims.dropLast.any (·.isEmpty) then .error .depthRequired else
     .ok ⟨depth, strip nm, dims, m.bits.map digitsToNat⟩
 
+/-- `str.split()`: the maximal runs of characters that are no white space.  `cur`: the current word, reversed -/
+def splitWordsGo : List Char → List Char → List (List Char)
+  | cur, [] => if cur.isEmpty then [] else [cur.reverse]
+  | cur, c :: r =>
+    if isWs c then (if cur.isEmpty then splitWordsGo [] r else cur.reverse :: splitWordsGo [] r)
+    else splitWordsGo (c :: cur) r
+
+def splitWords (l : List Char) : List (List Char) := splitWordsGo [] l
+
+/-- `" ".join(words)` -/
+def joinBlank : List (List Char) → List Char
+  | [] => []
+  | [w] => w
+  | w :: r => w ++ ' ' :: joinBlank r
+
+/-- `" ".join(text.split())`: how `_enum` spells the base type before it resolves it -/
+def normType (t : List Char) : List Char := joinBlank (splitWords t)
+
 /-- What the handlers read off a token.  The handlers never look at a token's text except through the token's own pattern
     (`pattern.match(token.value [+ ";"]).groupdict()`), `str.strip`, `str.startswith("union")`, `value == "}"` and the
     identifier text; `Tok.obs` performs exactly these reads, and the handlers below work on the observed tokens.  (A failed
@@ -573,7 +591,7 @@ inductive OTok
   | define (m : Option DefineM)
   | typedef
   | struct (isUnion : Bool)
-  | enum (m : Option EnumM)
+  | enum (m : Option EnumM)                                          -- the groups; the type as `" ".join(type.split())`
   | defs (names : List (List Char))                                   -- `[n.strip() for n in value.strip().split(",")]`
   | name (stripped : List Char) (d : Except PErr Declarator)         -- `value.strip()`, `_parse_field_type(·, value)`
   | ident (v : List Char)
@@ -590,7 +608,7 @@ def Tok.obs (t : Tok) : OTok :=
   | .define => .define ((matchDefine isWs t.value).map (·.1))
   | .typedef => .typedef
   | .struct => .struct (startsWith ['u', 'n', 'i', 'o', 'n'] t.value)
-  | .enum => .enum ((matchEnum isWs (t.value ++ [';'])).map (·.1))
+  | .enum => .enum ((matchEnum isWs (t.value ++ [';'])).map fun r => { r.1 with type := r.1.type.map normType })
   | .defs => .defs ((splitOn1 ',' (strip t.value)).map strip)
   | .name => .name (strip t.value) (parseDeclarator t.value)
   | .ident => .ident t.value
